@@ -19,7 +19,7 @@ def recipe_strategy(max_threads=4, max_ops=40, max_bodies=6, body_len=5, header=
                      st.lists(st.lists(optuple, max_size=body_len), max_size=max_bodies))
 
 
-def perturbation_cfg(P, h, kind, cpu):
+def perturbation_cfg(P, h, kind, cpu, eintr=True):
     """all schedule choices come from the recipe header, so they shrink with the case"""
     cfg = P.cfg
     cfg["cpu"] = cpu
@@ -45,6 +45,11 @@ def perturbation_cfg(P, h, kind, cpu):
         cfg["p"] = [2, 10, 50, 150][h[1] % 4]
         cfg["hyield"] = [0, 20, 100][h[4] % 3]
     P.cfg_active_cpus = [1, 2, 4, 16][h[7] % 4]
+    # EINTR injection (dvm executor): client threads are interrupted by a handled, non-SA_RESTART signal every <sigint> us
+    si = [0, 0, 0, 0, 150, 600, 2500][(h[7] >> 2) % 7]
+    if si and eintr:
+        cfg["sigint"] = si
+        P.features.add("eintr-injection")
     P.features.add("mode=%s" % ("F1" if kind == "F1" else ("N" if cfg["mode"] == 0 else "MC")))
     P.features.add("strat=%d" % cfg.get("strat", 0))
     P.features.add("active_cpus=%d" % P.cfg_active_cpus)
